@@ -1511,6 +1511,13 @@ package jmespath
 //@   ensures toks[i].tokenType == tQuotedIdentifier && thd(specNud(toks, i)) ==> fst(specNud(toks, i)).nodeType == ASTField && same(fst(specNud(toks, i)).value, mkStr(toks[i].value))
 //@   checkonly
 
+//@ lemma go-document-values-are-not-internal-values
+//@   props C18
+//@   var v Val
+//@   requires specGoVal(v)
+//@   ensures !isExpRef(v) && !isIntr(v) && !isTok(v) && !isInt(v) && !isIntPtrs(v)
+//@   trigger specGoVal(v)
+
 //@ lemma elements-of-a-go-array-are-go-values
 //@   props C18
 //@   var v Val
